@@ -59,6 +59,17 @@ def detect_renames(raw, base):
     new = [p for p in cur if p not in base and not cur[p]["derived"]]
     missing = [p for p in base if p not in cur and not base[p].get("derived")]
     ren = {}
+    # the same item with its lifetime parameters spelled differently (`impl TokenIter<'_>` -> `impl<'a> TokenIter<'a>`)
+    canon = lambda p_: re.sub(r"'[A-Za-z_]\w*", "'_", p_)  # noqa: E731
+    by_canon = {}
+    for m in missing:
+        by_canon.setdefault(canon(m), []).append(m)
+    for n in new:
+        c = by_canon.get(canon(n), [])
+        if len(c) == 1 and len([x for x in new if canon(x) == canon(n)]) == 1:
+            ren[n] = c[0]
+    new = [n for n in new if n not in ren]
+    missing = [m for m in missing if m not in ren.values()]
     for n in new:
         cands = [m for m in missing if base[m]["parent"] == cur[n]["parent"] and base[m]["kind"] == cur[n]["kind"] and _sig_key(base[m]["sig"]) == _sig_key(cur[n]["sig"])]
         if len(cands) == 1:
@@ -625,40 +636,60 @@ def _lcs_pairs(a, b):
     return pairs
 
 
+def _closure_dicts(raw):
+    out = {}
+    for b in raw["bodies"]:
+        if b.get("promoted") is not None or not b["kind"].startswith("Closure"):
+            continue
+        m = re.match(r"^(.*)::\{closure#(\d+)\}$", b["path"])
+        if not m:
+            continue
+        tys = [l["ty"] for l in b["locals"][:b["arg_count"] + 1]]
+        key = re.sub(r"\{closure@[^}]*\}", "{closure}", " | ".join([tys[0]] + tys[2:]))
+        out.setdefault(m.group(1), {})[int(m.group(2))] = key
+    return out
+
+
 def renumber_closures(text, raw, base_cl, log):
     """rustc numbers the closures of a function in source order, so adding or removing one closure renames all
     later ones. The closures of each function are aligned with the reference list by signature (longest common
     subsequence, order preserving); aligned closures get their reference number back, the others numbers
-    beyond the reference range. Outer functions first, one nesting level per pass."""
-    for _ in range(4):
-        cur = closure_table(raw)
-        ren = {}
-        for parent in sorted(cur, key=lambda p: p.count("{closure#")):
-            if parent not in base_cl or cur[parent] == base_cl[parent]:
+    beyond the reference range. Outer functions first, one function per pass (inner paths change with the outer)."""
+    done = set()
+    for _ in range(12):
+        cur = _closure_dicts(raw)
+        todo = None
+        for parent in sorted(cur, key=lambda p: (p.count("{closure#"), p)):
+            if parent in done or parent not in base_cl:
                 continue
-            c, bl = cur[parent], base_cl[parent]
-            pairs = dict(_lcs_pairs(c, bl))
-            nxt = max(len(bl), len(c))
+            d, bl = cur[parent], base_cl[parent]
+            if all((i < len(bl) and bl[i] == k) for i, k in d.items()) and len(d) == len(bl):
+                continue
+            idxs = sorted(d)
+            pairs = dict(_lcs_pairs([d[i] for i in idxs], bl))
+            nxt = max(len(bl), (max(idxs) + 1) if idxs else 0)
             m = {}
-            for i in range(len(c)):
-                if i in pairs:
-                    m[i] = pairs[i]
+            for pos, i in enumerate(idxs):
+                if pos in pairs:
+                    m[i] = pairs[pos]
                 else:
                     m[i] = nxt
                     nxt += 1
+            done.add(parent)
             if any(i != j for i, j in m.items()):
-                ren[parent] = m
-                break  # one parent per pass: inner paths change with the outer one
-        if not ren:
+                todo = (parent, m)
+                break
+        if todo is None:
             break
-        parent, m = list(ren.items())[0]
+        parent, m = todo
         tmp = text
+        pj = json.dumps(parent)[1:-1]
         for i, j in m.items():
             if i != j:
-                tmp = tmp.replace(json.dumps(parent)[1:-1] + "::{closure#%d}" % i, json.dumps(parent)[1:-1] + "::{closure@@%d}" % j)
-        # short display names inside shapes are derived from paths at load time; only paths are stored
+                tmp = tmp.replace(pj + "::{closure#%d}" % i, pj + "::{closure@@%d}" % j)
         text = tmp.replace("{closure@@", "{closure#")
         raw = json.loads(text)
+        # a renamed outer closure is a new parent path for its inner closures: map the reference table along
         log.append("closures of %s renumbered to the reference numbering (%s)" % (parent, ", ".join("#%d->#%d" % (i, j) for i, j in sorted(m.items()) if i != j)))
     return text, raw
 
